@@ -121,7 +121,22 @@ def regen(ctx):
     infos, hashes = ctx.gen_T('bitfun', 'ppci/utils/bitfun.py', c39.ENTRIES)
     rows = export_table(ctx)
     gen_reloc_bodies(ctx, infos)
+    gen_switch(ctx)
     return rows
+
+
+SWITCH = {'bl_fixed': False}
+
+
+def gen_switch(ctx):
+    """probe, on the implementation, which variant of a repaired class the current source has (witness of the
+    finding: thumb bl over 4 MiB + 4) and write Gen/reloc_switch.v; the tie theorem is then about that variant"""
+    out = rc.impl_apply('ThBlImm11', 0, (1 << 22) + 8, TEMPLATES['ThBlImm11'], 0)
+    fixed = isinstance(out, OkV) and rc.thumb_bl_off(rc.word(out.v)) == (1 << 22) + 4
+    SWITCH['bl_fixed'] = fixed
+    ctx.write_gen('reloc_switch', '(* GENERATED by tools/props/c11.py: which repaired variants the current source has (probed) *)\n'
+                                  'Definition bl_fixed : bool := %s.\n' % ('true' if fixed else 'false'))
+    ctx.cov['stages']['reloc_switch'] = dict(SWITCH)
 
 
 def gen_reloc_bodies(ctx, bitfun_infos):
@@ -209,7 +224,10 @@ def apply_cases(ctx, n_rand):
             A = rng.choice([0, 0, 0, -4, 4, 8])
             data = [rng.randrange(256) for _ in range(size)] if rng.randrange(3) else [0] * size
             out = rc.impl_apply(kind, A, S, data, P)
-            cases.append((rc.apply_term(kind, A, S, data, P), out))
+            term = rc.apply_term(kind, A, S, data, P)
+            if kind == 'ThBlImm11' and SWITCH['bl_fixed']:
+                term = 'apply_bl_fixed %s %s %s' % (w(S), to_term(list(data)), w(P))
+            cases.append((term, out))
             recs.append((kind, A, S, data, P, out))
     return cases, recs
 
@@ -218,7 +236,7 @@ def apply_cases(ctx, n_rand):
 FIELD_MASK = {   # bits of the little-endian instruction word a relocation may change
     'RvBImm12': 0xFE000F80, 'RvBImm20': 0xFFFFF000, 'RvcCBImm11': 0xFFFFF000, 'RvcCBlImm11': 0xFFFFF000,
     'RvcBcImm11': 0x1FFC, 'RvcBcImm8': 0x1C7C, 'ArmImm24': 0x00FFFFFF, 'ThWrapNew11': 0x7FF, 'ThRel8': 0xFF,
-    'ThBlImm11': 0x07FF07FF, 'ThLit8': 0xFF, 'ArmLdrImm12': 0x00800FFF,
+    'ThBlImm11': 0x2FFF07FF,     # S, imm10, imm11 and J1 (bit 29), J2 (bit 27) of encoding T1 'ThLit8': 0xFF, 'ArmLdrImm12': 0x00800FFF,
     'RvAbs32Imm20': 0xFFFFF000, 'RvRelImm20': 0xFFFFF000, 'RvAbs32Imm12': 0xFFF00000, 'RvRelImm12': 0xFFF00000,
 }
 TEMPLATES = {    # instruction templates the assembler emits (field bits zero)
@@ -586,6 +604,8 @@ def link_model_cases(recs, limit):
     for kind, rec, v in recs:
         if 'snap' not in rec:
             continue
+        if kind == 'ThBlImm11' and SWITCH['bl_fixed']:
+            continue      # Model.Reloc.do_relocation uses the unrepaired bl body; the repaired one is Model.RelocFix
         snap = rec['snap']
         ids = {n: i + 1 for i, (n, _, _) in enumerate(snap['sections'])}
         secs, syms = kind_term(ids, snap)
@@ -615,9 +635,9 @@ def run(ctx):
         'classes': len({r['cls'] for r in rows}),
         'modelled': sorted({r['cls'] for r in rows if r['kind']}),
         'not_covered': sorted({r['cls'] for r in rows if not r['kind']})}
-    if ctx.build(['Model/Reloc.vo', 'Lib/Val.vo'])[0]:
+    if ctx.build(['Model/Reloc.vo', 'Model/RelocFix.vo', 'Lib/Val.vo'])[0]:
         cases, recs = apply_cases(ctx, 6 if ctx.quick() else 40)
-        bad = ctx.run_cases('apply', ['Model.Reloc'], cases)
+        bad = ctx.run_cases('apply', ['Model.Reloc', 'Model.RelocFix'], cases)
         if bad:
             for i in bad[:8]:
                 ctx.log('apply model/implementation disagree', recs[i][:5], 'impl=',
@@ -656,7 +676,8 @@ def run(ctx):
         ctx.cov['stages']['apply_distribution'] = dist
         ctx.cov['distinct_nontrivial'] += sum(1 for r in recs if isinstance(r[5], OkV) and r[2] != r[4])
     # ---- proofs
-    ok, _ = ctx.build(['Proofs/C11_final.vo', 'Proofs/C11_tie.vo', 'Proofs/C11_relocs3.vo', 'Proofs/C11_relocs4.vo'])
+    ok, _ = ctx.build(['Proofs/C11_final.vo', 'Proofs/C11_tie.vo', 'Proofs/C11_relocs3.vo', 'Proofs/C11_relocs4.vo',
+                       'Proofs/C11_blfix.vo'])
     if ok:
         ctx.check_props('Props/C11.v')
     # ---- search through the real linker (always; deeper when something failed or tier is thorough)
